@@ -125,10 +125,12 @@ CHECKS = {
     "C18": ("REGENERATED: create_random_shuffles is translated from the current source on every run (MiniPyD; the permutations "
             "numpy.random.shuffle applies are a parameter, numpy.random.seed an external function) and proved equal to the model: "
             "C18_table_source, C18_seed_and_verbose_irrelevant_source, C18_bad_seed_source; encode / decode are regenerated too.  "
+            "NumPy's legacy generator (MT19937 seeding, tempering, random_interval, in-place shuffle) is modelled in coq/MT19937.v: "
+            "C18_numpy_table, C18_numpy_table_source and C18_reproducible_source make the table a function of (observed length, seed); "
+            "that NumPy's RandomState is this generator is an assumption checked on every run (every sampled table compared entry for entry).  "
             "Theorems: argsort yields a permutation for any keys, digit->position and position->digit are inverse for any table "
             "row, for permutation rows the code's choice is the rank-selected live arc and digit<->arc is a bijection; the 24 x "
-            "15 space is swept exhaustively inside Coq; the NumPy RNG is NOT modelled, so reproducibility and the table's "
-            "row-permutation shape are run-time checks of create_random_shuffles (partial on the RNG, as DESIGN.md section 7 says).",
+            "15 space is swept exhaustively inside Coq.",
             "Coq proof (sorting/permutation lemmas, exhaustive vm_compute sweep) + correspondence + run-time table checks", "5 C18"),
     "C15": ("Theorems for decimal strings of ANY length and all ten operand digits: the digit-serial add / subtract / multiply "
             "/ divide loops return the canonical decimal string of the exact result; tied to dsw/operation.py twice: the four "
